@@ -316,8 +316,8 @@ def _inlinable(h: FuncInfo, as_statement: bool) -> bool:
         # **options is fine when it is only passed on as **options to calls
         kw = n.args.kwarg.arg
         uses = [x for x in ast.walk(n) if isinstance(x, ast.Name) and x.id == kw]
-        passed = [k.value for c in ast.walk(n) if isinstance(c, ast.Call) for k in c.keywords if k.arg is None and isinstance(k.value, ast.Name) and k.value.id == kw]
-        if len(uses) != len(passed):
+        # ... or only read (`options.items()`): the call site's keywords stand for it as a dict display
+        if any(not isinstance(x.ctx, ast.Load) for x in uses):
             return False
     if any(d for d in n.decorator_list if not (isinstance(d, ast.Name) and d.id in ('staticmethod', 'classmethod'))):
         return False
@@ -509,6 +509,17 @@ def _expand(idx: PyIndex, fi: FuncInfo, call: ast.Call, h: FuncInfo, at: ast.AST
                     else:
                         newk.append(k)
                 c.keywords = newk
+        # any other read of `options` (options.items(), options.get('x')): the dict of the keywords given here, in place
+        if any(isinstance(x, ast.Name) and x.id == kwname and isinstance(x.ctx, ast.Load) for x in ast.walk(hn)):
+            kwdict = ast.Dict(keys=[ast.Constant(value=k_.arg) for k_ in extra_kw], values=[copy.deepcopy(k_.value) for k_ in extra_kw])
+
+            class _KwDict(ast.NodeTransformer):
+                def visit_Name(self, n):
+                    if n.id == kwname and isinstance(n.ctx, ast.Load):
+                        return ast.copy_location(copy.deepcopy(kwdict), n)
+                    return n
+            hn = _KwDict().visit(hn)
+            ast.fix_missing_locations(hn)
     stored = {x.id for x in ast.walk(hn) if isinstance(x, ast.Name) and isinstance(x.ctx, (ast.Store, ast.Del))}
     direct: Dict[str, ast.AST] = {}
     for p in params + [a.arg for a in hn.args.kwonlyargs]:
@@ -661,10 +672,63 @@ def inline_function(idx: PyIndex, fi: FuncInfo, depth: int = 2, keep=None, types
         changed = False
         tenv = type_env(idx, fi, fn, exact) if types is not None else None
 
+        def hoist_test_call(st: ast.If) -> Optional[List[ast.stmt]]:
+            """`if h(..) is not None: X` with a helper that needs statements (a search loop): the call is evaluated first and unconditionally, so it can be
+            bound to a local just before the `if` (and expanded there).  `if A and h(..): X` without an else is first nested as `if A: if h(..): X`."""
+            t = st.test
+            if isinstance(t, ast.BoolOp) and isinstance(t.op, ast.And) and not st.orelse and len(t.values) >= 2:
+                for k_, v_ in enumerate(t.values[1:], start=1):
+                    if slot_of(v_) is not None:
+                        head = t.values[0] if k_ == 1 else ast.BoolOp(op=ast.And(), values=t.values[:k_])
+                        rest = t.values[k_] if k_ == len(t.values) - 1 else ast.BoolOp(op=ast.And(), values=t.values[k_:])
+                        inner = ast.copy_location(ast.If(test=rest, body=st.body, orelse=[]), st)
+                        outer = ast.copy_location(ast.If(test=head, body=[inner], orelse=[]), st)
+                        ast.fix_missing_locations(outer)
+                        return [outer]
+                return None
+            slot = slot_of(t)
+            if slot is None:
+                return None
+            holder, fld, call = slot
+            tmp = f'_t{next(_n)}'
+            pre = ast.copy_location(ast.Assign(targets=[ast.Name(id=tmp, ctx=ast.Store())], value=call), st)
+            repl = ast.copy_location(ast.Name(id=tmp, ctx=ast.Load()), call)
+            if holder is None:
+                st.test = repl
+            else:
+                setattr(holder, fld, repl)
+            ast.fix_missing_locations(pre)
+            return [pre, st]
+
+        def slot_of(t):
+            """(holder, field, call) of the helper call a test evaluates first - when that helper needs statements"""
+            holder = fld = None
+            c = t
+            if isinstance(c, ast.UnaryOp) and isinstance(c.op, ast.Not):
+                holder, fld, c = c, 'operand', c.operand
+            if isinstance(c, ast.Compare):
+                holder, fld, c = c, 'left', c.left
+            if not isinstance(c, ast.Call):
+                return None
+            h5 = _helper_for(idx, fi, c, tenv)
+            if isinstance(h5, _GenRef) or h5 is None or h5.id == fi.id or h5.qualname.split('.')[-1] in keep:
+                return None
+            if _expr_form(idx, fi, c, h5) is not None or not _inlinable(h5, False):
+                return None
+            return holder, fld, c
+
         def do_body(body: List[ast.stmt]) -> List[ast.stmt]:
             nonlocal changed
             out: List[ast.stmt] = []
-            for st in body:
+            work = list(body)
+            while work:
+                st = work.pop(0)
+                if isinstance(st, ast.If):
+                    hoisted = hoist_test_call(st)
+                    if hoisted is not None:
+                        changed = True
+                        work[0:0] = hoisted
+                        continue
                 for fld in ('body', 'orelse', 'finalbody'):
                     b = getattr(st, fld, None)
                     if isinstance(b, list) and b and isinstance(b[0], ast.stmt):
